@@ -5,6 +5,8 @@
 #include "ccl/rslang/RSErrorCodes.hpp"
 #include "ccl/cclMeta.hpp"
 
+#include <limits>
+
 namespace ccl::rslang::detail {
 
 //! Abstract Lexer
@@ -22,6 +24,9 @@ protected:
 public:
   TokenID lex() {
     lastRead = this->BaseT().DoLex();
+    if (!HasRepresentableData()) {
+      lastRead = TokenID::INTERRUPT;
+    }
     return lastRead;
   }
 
@@ -68,6 +73,41 @@ public:
   }
 
 private:
+  //! Integer literals must fit DataID (int32), projection / filter indices must be in [1, max Index]
+  [[nodiscard]] bool HasRepresentableData() const {
+    switch (lastRead) {
+    default: return true;
+    case TokenID::LIT_INTEGER:
+      return IsNumberUpTo(Text(), std::numeric_limits<int32_t>::max(), 0);
+    case TokenID::SMALLPR:
+    case TokenID::BIGPR:
+    case TokenID::FILTER: {
+      const auto text = Text().erase(0, 2);
+      for (const auto& number : SplitBySymbol(text, ',')) {
+        if (!IsNumberUpTo(number, std::numeric_limits<Index>::max(), 1)) {
+          return false;
+        }
+      }
+      return true;
+    }
+    }
+  }
+
+  [[nodiscard]] static bool IsNumberUpTo(std::string_view digits, const int64_t maxValue, const int64_t minValue) noexcept {
+    static constexpr size_t maxDigits = 18;
+    while (size(digits) > 1 && digits.front() == '0') {
+      digits.remove_prefix(1);
+    }
+    if (empty(digits) || size(digits) > maxDigits) {
+      return false;
+    }
+    int64_t value = 0;
+    for (const auto digit : digits) {
+      value = value * 10 + (digit - '0'); // NOLINT
+    }
+    return value >= minValue && value <= maxValue;
+  }
+
   [[nodiscard]] TokenData ToInt() const {
     return TokenData{ static_cast<int32_t>(std::atol(Text().c_str())) }; // TODO: strtol
   }
